@@ -13,6 +13,9 @@ Abstract cases (table spec as in C06: `id:N | rw:N:SEQ | txt:TABLE`):
   freq  SPEC letter per calls   `calls` calls of Optimize on `per` copies of one letter; codon counts
                                 (STATISTICAL: 7 sigma band around N·w/max)
   rp    length seed SPEC        random.ProteinSequence(length, seed), then Optimize + Translate under SPEC
+  hist  SPEC n STEP…            one private table instance through a history of steps `O:protein` (n calls of
+                                Optimize), `W:seq` (OptimizeTable in place), `T:dna` (Translate), `S:i,j` (swap two entries' letters in place): a result must
+                                depend on the table as it is NOW, not on what the instance held earlier
 
 `Optimize` reseeds math/rand from the clock, so an output cannot be predicted; correspondence = the real
 output is a MEMBER of the model's set of possible outputs (status as the model says; position by position the
@@ -25,6 +28,7 @@ def render (f : List String) : List String :=
   | ["union", spec, p, n] => ["optimize", spec, p, n]
   | ["freq", spec, l, per, calls] => ["optfreq", spec, l, per, calls]
   | ["rp", len, seed, spec] => ["randprot", len, seed, spec]
+  | "hist" :: spec :: n :: steps => "opthist" :: spec :: n :: steps
   | _ => ["bad"]
 
 /-! ### model side -/
@@ -99,33 +103,81 @@ def dedup (l : List Str) : List Str := l.foldl (fun acc x => if acc.contains x t
 
 def sameSet (a b : List Str) : Bool := a.all b.contains && b.all a.contains
 
+/-- correspondence and property verdict for `n` runs of Optimize(p) under table `t` -/
+def judgeRuns (kind : String) (t : Table) (k : TKind) (p : Str) (n : Nat) (runs : List Run) : Bool × Bool × String × String :=
+  let ms := modelStatus t p
+  let fl := floatAgrees t
+  let corr := fl && runs.length == n && runs.all fun r => r.st == ms && (r.st != "ok" || modelMember t p r.dna)
+  let enc := specEncodable t p
+  let jRuns := if p.isEmpty then runs.all (·.st == "err")
+    else if enc then runs.all (runOk t k p) else runs.all (·.st == "err")
+  -- union of the codons seen per letter = the eligible set (statistical)
+  let letters := dedup (p.map fun c => [c])
+  let jUnion := kind != "union" || !enc || letters.all fun l =>
+    let seen := dedup (runs.flatMap fun r => ((p.zip (chunks3 r.dna)).filter fun (aa, _) => [aa] == l).map (·.2))
+    sameSet seen (specEligible t l)
+  let j := jRuns && jUnion && runs.length == n
+  let tag := kindTag k ++ "/" ++ (if p.isEmpty then "empty-protein" else unencReason t p)
+  let detail := if corr && j then "" else
+    "model status " ++ ms ++ (if fl then "" else " FLOAT/EXACT share tests differ") ++
+    (if jUnion then "" else " union≠eligible") ++ " eligible: " ++
+    ";".intercalate (letters.map fun l => String.ofList l ++ ":" ++ ",".intercalate ((specEligible t l).map String.ofList))
+  (corr, j, tag, detail)
+
 def judgeOpt (kind spec : String) (p : Str) (n : Nat) (out : List String) : Verdict :=
   match out with
   | "ok" :: reported :: rest =>
     match tableOf spec reported with
     | none => { corr := false, judge := none, cls := "bad-spec" }
     | some (t, k) =>
-      let runs := runsOf rest
-      let ms := modelStatus t p
-      let fl := floatAgrees t
-      let corr := fl && runs.length == n && runs.all fun r => r.st == ms && (r.st != "ok" || modelMember t p r.dna)
-      let dom := decide (WF t)
-      let enc := specEncodable t p
-      let jRuns := if p.isEmpty then runs.all (·.st == "err")
-        else if enc then runs.all (runOk t k p) else runs.all (·.st == "err")
-      -- union of the codons seen per letter = the eligible set (statistical)
-      let letters := dedup (p.map fun c => [c])
-      let jUnion := kind != "union" || !enc || letters.all fun l =>
-        let seen := dedup (runs.flatMap fun r => ((p.zip (chunks3 r.dna)).filter fun (aa, _) => [aa] == l).map (·.2))
-        sameSet seen (specEligible t l)
-      let j := jRuns && jUnion && runs.length == n
-      { corr := corr, judge := if dom then some j else none,
-        cls := (if p.length ≤ 1 then "triv:" else "") ++ (if kind == "union" then "stat:union/" else "opt/") ++ kindTag k ++ "/" ++
-               (if p.isEmpty then "empty-protein" else unencReason t p),
-        detail := if corr && j then "" else
-          "model status " ++ ms ++ (if fl then "" else " FLOAT/EXACT share tests differ") ++
-          (if jUnion then "" else " union≠eligible") ++ " eligible: " ++
-          ";".intercalate (letters.map fun l => String.ofList l ++ ":" ++ ",".intercalate ((specEligible t l).map String.ofList)) }
+      let (corr, j, tag, detail) := judgeRuns kind t k p n (runsOf rest)
+      { corr := corr, judge := if decide (WF t) then some j else none,
+        cls := (if p.length ≤ 1 then "triv:" else "") ++ (if kind == "union" then "stat:union/" else "opt/") ++ tag,
+        detail := detail }
+  | st :: _ => { corr := false, judge := none, cls := "request-" ++ st }
+  | [] => { corr := false, judge := none, cls := "no-reply" }
+
+/-- a history on one private table instance: `W:seq` re-weights it in place, `O:protein` optimizes `n` times,
+`T:dna` translates.  Every `O` / `T` step is judged against the table text the harness reports at that moment
+(so the re-weighting itself is taken as given; that it is right is C08's business). -/
+def judgeHist (n : Nat) (steps : List String) (out : List String) : Verdict :=
+  match out with
+  | "ok" :: rest =>
+    let rec go (fuel : Nat) (steps : List String) (rest : List String) (corr j wf : Bool) (detail : String) (nO : Nat) :
+        Bool × Bool × Bool × String × Nat :=
+      match fuel with
+      | 0 => (false, false, wf, "fuel", nO)
+      | fuel + 1 =>
+        match steps with
+        | [] => (corr && rest.isEmpty, j, wf, detail, nO)
+        | step :: more =>
+          if step.startsWith "W:" || step.startsWith "S:" then go fuel more rest corr j wf detail nO
+          else if step.startsWith "O:" then
+            match rest with
+            | "O" :: tt :: rest' =>
+              let t := parseTable tt
+              let p := (step.drop 2).toString.toList
+              let (c1, j1, _, d1) := judgeRuns "opt" t .txt p n (runsOf (rest'.take (4 * n)))
+              go fuel more (rest'.drop (4 * n)) (corr && c1) (j && j1) (wf && decide (WF t)) (if d1.isEmpty then detail else d1) (nO + 1)
+            | _ => (false, false, wf, "reply shape", nO)
+          else if step.startsWith "T:" then
+            match rest with
+            | "T" :: tt :: st :: v :: rest' =>
+              let t := parseTable tt
+              let s := (step.drop 2).toString.toList
+              let m := PolyVerif.Driver.C06.outStr (translate s t)
+              let o := if st == "ok" then [st, v] else [st, ""]
+              let expect := if s.isEmpty then ["err", ""] else
+                match PolyVerif.Driver.C06.specTranslation t .txt s with
+                | some x => ["ok", String.ofList x]
+                | none => ["?"]
+              go fuel more rest' (corr && o == m) (j && o == expect) (wf && decide (WFTable t) && decide (Acgt s))
+                (if o == m && o == expect then detail else lineOf (m ++ ["expect"] ++ expect)) nO
+            | _ => (false, false, wf, "reply shape", nO)
+          else (false, false, wf, "bad step", nO)
+    let (corr, j, wf, detail, nO) := go (steps.length + 1) steps rest true true true "" 0
+    { corr := corr, judge := if wf then some j else none,
+      cls := "hist/" ++ toString nO ++ "opt-of-" ++ toString steps.length ++ "steps", detail := detail }
   | st :: _ => { corr := false, judge := none, cls := "request-" ++ st }
   | [] => { corr := false, judge := none, cls := "no-reply" }
 
@@ -194,6 +246,7 @@ def judge (f out : List String) : Verdict :=
   | ["union", spec, p, n] => judgeOpt "union" spec p.toList (natOfStr n) out
   | ["freq", spec, l, per, calls] => judgeFreq spec l.toList (natOfStr per) (natOfStr calls) out
   | ["rp", len, _, spec] => judgeRp (len.toInt?.getD 0) spec out
+  | "hist" :: _ :: n :: steps => judgeHist (natOfStr n) steps out
   | _ => { corr := false, judge := none, cls := "bad-case", detail := "bad case" }
 
 def driver : PropDriver := { render, judge }
